@@ -260,6 +260,20 @@ class Weights(Family):
     def check(self, case):
         m = C.tx_from_case(case)
         want = 3 * len(W.encode_tx(m, witness=False)) + len(W.encode_tx(m))
+        # a weight computation that cannot succeed comes first (a field outside its wire range, early and late in the
+        # encoding): whatever it raises, nothing of it may show up in the weights computed afterwards
+        bad = C.lib_tx(m, mutable=True)
+        for attr, val in (('nLockTime', 1 << 32), ('nVersion', 1 << 31)):
+            keep = getattr(bad, attr)
+            setattr(bad, attr, val)
+            try:
+                bad.calc_weight()
+                raise Viol('calc_weight() of a transaction with %s=%d returned' % (attr, val), 'exception', None)
+            except Viol:
+                raise
+            except Exception:  # noqa
+                pass
+            setattr(bad, attr, keep)
         for mut in (False, True):
             t = C.lib_tx(m, mutable=mut)
             for rep in (0, 1):
@@ -294,5 +308,78 @@ class BigBlockWeight(Family):
         return 'ok', n >= 253
 
 
+class OneListObject(Family):
+    """the caller keeps ONE transaction list (and ONE txid list) and grows it, shrinks it and replaces entries in place
+    between calls: every block built from it, every tree, root and weight is that of the list's contents at the time of
+    the call"""
+    name = 'one_growing_list_object'
+    engine = 'E2'
+    nontrivial_rule = 'every step after the first'
+
+    def shards(self, tier):
+        return ['none', 'all', 'odd']
+
+    def cases(self, shard, tier):
+        for script in ('grow', 'grow_shrink', 'replace'):
+            yield (shard, script)
+
+    def check(self, case):
+        from bitcoin.core import CBlock, NoWitnessData
+        wp, script = case
+        N = 9
+        pool = [coinbase(wp != 'none')] + [pool_tx(i, wp == 'all' or (wp == 'odd' and i % 2 == 1)) for i in range(1, N + 3)]
+        libpool = [C.lib_tx(m) for m in pool]
+        txs, ids, models = [], [], []
+        steps = 0
+
+        def probe(when):
+            txids = [W.txid(m) for m in models]
+            root = W.merkle_root(txids)
+            blk = CBlock(nVersion=4, hashPrevBlock=b'\x11' * 32, nTime=1, nBits=0x207fffff, nNonce=0, vtx=txs)
+            if blk.hashMerkleRoot != root or list(blk.vMerkleTree) != W.merkle_tree(txids) or blk.calc_merkle_root() != root:
+                raise Viol('block built from the caller\'s list %s: merkle root / tree are not those of the list\'s current contents (%d transactions)' % (when, len(models)), root.hex(), bytes(blk.hashMerkleRoot).hex())
+            if list(CBlock.build_merkle_tree_from_txs(txs)) != W.merkle_tree(txids) or list(CBlock.build_merkle_tree_from_txids(ids)) != W.merkle_tree(txids):
+                raise Viol('merkle tree built from the caller\'s list %s is not that of its current contents (%d entries)' % (when, len(models)), None, None)
+            wl = [b'\x00' * 32] + [W.wtxid(m) for m in models[1:]]
+            anyw = any(W.has_witness(m) for m in models)
+            try:
+                wt = list(CBlock.build_witness_merkle_tree_from_txs(txs))
+            except NoWitnessData:
+                wt = None
+            if (wt is not None) != anyw or (anyw and (wt != W.merkle_tree(wl) or list(blk.vWitnessMerkleTree) != W.merkle_tree(wl))):
+                raise Viol('witness merkle tree built from the caller\'s list %s is not that of its current contents' % when, None, None)
+            sw = 3 * len(W.encode_block(dict(_hdr(root), vtx=models), witness=False)) + len(W.encode_block(dict(_hdr(root), vtx=models)))
+            if blk.GetWeight() != sw:
+                raise Viol('GetWeight() of the block built from the caller\'s list %s' % when, sw, blk.GetWeight())
+            if len(txs) != len(models) or len(ids) != len(models):
+                raise Viol('the caller\'s list was changed', len(models), len(txs))
+        for i in range(N):
+            txs.append(libpool[i])
+            ids.append(W.txid(pool[i]))
+            models.append(pool[i])
+            probe('after appending entry %d' % i)
+            steps += 1
+        if script == 'grow_shrink':
+            while len(txs) > 1:
+                txs.pop()
+                ids.pop()
+                models.pop()
+                probe('after popping down to %d entries' % len(txs))
+                steps += 1
+        if script == 'replace':
+            for i in (N - 1, 1, N // 2):
+                txs[i] = libpool[N + 1]
+                ids[i] = W.txid(pool[N + 1])
+                models[i] = pool[N + 1]
+                probe('after replacing entry %d in place' % i)
+                steps += 1
+                txs[i] = libpool[i]
+                ids[i] = W.txid(pool[i])
+                models[i] = pool[i]
+                probe('after restoring entry %d in place' % i)
+                steps += 1
+        return 'ok', True, steps
+
+
 def families(tier):
-    return [Counts(), Patterns(), WrongRoots(), Weights(), BigBlockWeight()]
+    return [Counts(), Patterns(), WrongRoots(), Weights(), BigBlockWeight(), OneListObject()]
